@@ -58,9 +58,9 @@ m = {
  "setup_cmd": "./setup.sh",
  "hooks": {
   "guard": "fancy_regex_verif",
-  "enable": "RUSTFLAGS=\"--cfg fancy_regex_verif\" (only the native replay of C20 operation histories uses the hook build; SYMX itself instruments a generated copy of /repo/src under /verif/work, see symx/gen.py)",
+  "enable": "RUSTFLAGS=\"--cfg fancy_regex_verif\" (only the native replay of C20 counterexamples -- operation histories through VState, whole searches under the snapshot observer -- uses the hook build; SYMX itself instruments a generated copy of /repo/src under /verif/work, see symx/gen.py)",
   "baseline_off_cmd": "cd /repo && cargo test --workspace --no-fail-fast --offline",
-  "source_commits": ["cee1dbb"],
+  "source_commits": ["cee1dbb", "dbe119d"],
   "add_only": True
  },
  "engines": [
